@@ -576,6 +576,9 @@ class Decider:
         atoms_used = any(v[0] == 'a' and not (self.rec.atoms[v[1]][0] == 'uf' and self.rec.atoms[v[1]][1][0] in ('cos', 'sin')) for v in pvars(R))
         if is_affine(R):
             self.stats['lra'] += 1
+            # the path condition only strengthens the query: try the box alone first (identities that hold on the whole box are the rule)
+            r, s = self._check(ctx.box() + [bad(ctx.term(R))])
+            if r == z3.unsat: res.update(verdict='holds', method='QF_LRA (whole box)'); return res
             r, s = self._check(ctx.box() + self.pc_lin() + [bad(ctx.term(R))])
             if r == z3.unsat: res.update(verdict='holds', method='QF_LRA'); return res
             if r == z3.sat and len(self.pc_lin()) < len(self.rec.pc):
@@ -602,6 +605,8 @@ class Decider:
                     else:
                         w = z3.Real('w%d' % k); lo, hi = hulls[m]
                         cs += [w >= z3.RealVal(str(lo)), w <= z3.RealVal(str(hi))]; ts.append(z3.RealVal(str(c)) * w)
+                r, s = self._check(ctx.box() + cs + [bad(z3.Sum(ts))])
+                if r == z3.unsat: res.update(verdict='holds', method='interval-relaxation QF_LRA (whole box)'); return res
                 r, s = self._check(ctx.box() + self.pc_lin() + cs + [bad(z3.Sum(ts))])
                 if r == z3.unsat: res.update(verdict='holds', method='interval-relaxation QF_LRA'); return res
         self.stats['nra'] += 1
@@ -770,7 +775,7 @@ class Explorer:
             if prefix is None:
                 inputs = {}
             else:
-                s = z3.Solver(); s.set('timeout', self.solver_timeout_ms); s.add(*self.boxcs); s.add(*prefix)
+                s = z3.Solver(); s.set('timeout', self.solver_timeout_ms); s.set('rlimit', 40 * self.solver_timeout_ms * 1000); s.add(*self.boxcs); s.add(*prefix)
                 t = time.time(); r = s.check(); self.stats['solver_s'] += time.time() - t; self.stats['queries'] += 1
                 if r == z3.unsat: self.infeasible += 1; continue
                 if r != z3.sat: self.cover_unknown = True; continue
